@@ -33,6 +33,12 @@ func epochHeap(ep, key string, srt *Sort) *Term {
 }
 
 func (fx *fnExec) havocAll(st *State, except map[string]bool, hint string) {
+	prot := fx.protectedCells(st)
+	defer func() {
+		for _, pc := range prot {
+			fx.ex.storeObj(st, pc.t, pc.ref, pc.val)
+		}
+	}()
 	for k := range except {
 		if _, ok := st.Heap[k]; ok {
 			continue
